@@ -349,9 +349,16 @@ def c09(tier, seed):
 def c10(tier, seed):
     obs = pool_seq('C10', CORE, tier, ops_filter=['OP_RESERVE'])
     for lid in CORE:
-        obs.append(seq_ob('C10', lid, ['OP_RESERVE', 'OP_RESERVE', 'OP_PROBE'], k0=2))
-        obs.append(seq_ob('C10', lid, ['OP_RESERVE', 'OP_PROBE', 'OP_PROBE', 'OP_PROBE'], k0=1))
-    obs += [o for o in pool_layout('C10', tier, seed, reserved=True)]
+        obs.append(seq_ob('C10', lid, ['OP_RESERVE', 'OP_RESERVE', 'OP_PROBE'], k0=2, smax=(1 if lid in TWO_SPAN else None)))
+        if lid not in TWO_SPAN or tier == 'thorough':
+            obs.append(seq_ob('C10', lid, ['OP_RESERVE', 'OP_PROBE', 'OP_PROBE', 'OP_PROBE'], k0=1, smax=(1 if lid in TWO_SPAN else None)))
+    # Mode A on a reserved (not freshly constructed) vector
+    for lid in (['P2', 'F1', 'V1', 'V2'] if tier == 'quick' else TRIVIAL):
+        lst = LISTS[lid]
+        ns = lst.count(V + '<') + lst.count(F + '<')
+        obs.append(layout_ob('C10', lid, lst, nelem=2, reserved=1, maxspan=(64 if tier == 'quick' or ns >= 2 else 65535)))
+    if tier == 'thorough':
+        obs += [o for o in pool_layout('C10', 'quick', seed, reserved=True) if o['list'] not in TRIVIAL]
     return dedup(obs)
 
 
